@@ -251,10 +251,28 @@ def writer_functions(ctx, words, exclude=()):
     return list(seen.values())
 
 
+_FRESH = ('eye', 'identity', 'zeros', 'ones', 'empty', 'full', 'array', 'zeros_like', 'ones_like', 'empty_like',
+          'full_like', 'copy', 'diag', 'asarray')
+
+
+def _fresh_array(v):
+    if isinstance(v, ast.List):
+        return True
+    if isinstance(v, ast.BinOp) and isinstance(v.op, ast.Mult) and (isinstance(v.left, ast.List) or isinstance(v.right, ast.List)):
+        return True
+    if isinstance(v, ast.Call):
+        d = dotted(v.func) or ''
+        return d.split('.')[-1] in _FRESH and d.split('.')[0] in ('np', 'numpy') or (
+            isinstance(v.func, ast.Attribute) and v.func.attr == 'copy' and not v.args)
+    return False
+
+
 def loop_scratch_hazards(func):
     """[(loop, name, store node, read node)]: an array / list bound before a loop (and not re-bound inside it) whose
     elements are stored inside the loop at positions that depend on the iteration, and which is read as a whole
-    inside the same loop: what the previous iterations stored is still in it (a scratch object that is never reset)"""
+    inside the same loop: what the previous iterations stored is still in it (a scratch object that is never reset).
+    Scratch = created by an array / list constructor under this one name and not read after the loop; an alias of
+    an attribute, a keyed collection or the array the loop builds up (read afterwards) is state kept on purpose."""
     out = []
     node = func.node
     loops = [l for l in ast.walk(node) if isinstance(l, (ast.For, ast.While))]
@@ -285,11 +303,16 @@ def loop_scratch_hazards(func):
             if not outside:
                 continue
             pa = {id(ch): x for x in ast.walk(node) for ch in ast.iter_child_nodes(x)}
-            vals = [pa[id(x)].value for x in outside if isinstance(pa.get(id(x)), ast.Assign)]
-            if any(isinstance(v, (ast.Dict, ast.Set, ast.DictComp, ast.SetComp)) or (isinstance(v, ast.Call)
-                    and isinstance(v.func, ast.Name) and v.func.id in ('dict', 'set', 'defaultdict', 'OrderedDict'))
-                   for v in vals):
-                continue                    # a keyed collection: each key is its own entry, nothing is left over
+            binds = [pa.get(id(x)) for x in outside]
+            # a scratch object: created fresh by an array / list constructor under this one name (not an alias of
+            # an attribute or of another object: those are the results being accumulated) ...
+            if not binds or not all(isinstance(b, ast.Assign) and len(b.targets) == 1 and _fresh_array(b.value) for b in binds):
+                continue
+            # ... and used by this loop only (an array read after the loop is the result the loop builds)
+            end = getattr(l, 'end_lineno', l.lineno)
+            if any(isinstance(x, ast.Name) and x.id == nm and isinstance(x.ctx, ast.Load) and x.lineno > end
+                   for x in ast.walk(node)):
+                continue
             for x in inner:
                 if isinstance(x, ast.Name) and x.id == nm and isinstance(x.ctx, ast.Load):
                     p = par.get(id(x))
